@@ -16,7 +16,7 @@ After EVERY step
 """
 from hypothesis import strategies as st
 
-from lib import runner, stateful
+from lib import budget, runner, stateful
 
 POOL = ["a", "A", "b", "B", "c", "x y", "x_y"]
 NL = len(POOL)
@@ -58,39 +58,85 @@ I = st.integers(0, 1000)
 B = st.booleans()
 LBL = st.integers(0, NL - 1)
 NSSEL = st.integers(0, 8)
-HOW = st.sampled_from(["require", "require", "require", "new"])
-
-
-def _node(children):
-    return st.tuples(st.sampled_from([-1, -1, -1, -1, -1, 0, 2, 5]), st.lists(children, min_size=2, max_size=3)).map(
-        lambda t: [t[0]] + t[1])
-
-
-SPEC = _node(st.recursive(LBL, _node, max_leaves=3))
+HOW = st.integers(0, 3)  # 3 = every occurrence gets a new Taxon (duplicate labels), otherwise require_taxon
 
 
 def fd(**kw):
     return st.fixed_dictionaries(dict(kw))
 
 
-MK = fd(spec=SPEC, ns=NSSEL, how=HOW)
-DOC = fd(schema=st.sampled_from(["newick", "nexus"]), labels=st.lists(LBL, min_size=3, max_size=6, unique=True),
-         trees=st.lists(fd(perm=I, n=st.integers(2, 5), shape=I), min_size=1, max_size=2),
-         rows=st.lists(I, min_size=0, max_size=3), quote=B, translate=B)
-SRC = fd(kind=st.sampled_from(["tlist", "slice", "list"]), s=I, i=st.integers(0, 4), j=st.integers(0, 6),
-         n=st.integers(1, 3), mk=MK)
+# compact encodings (few draws; decoded by expand_mk / expand_doc)
+TREE = dict(ls=st.lists(LBL, min_size=2, max_size=5), shape=I, il=st.integers(-5, NL - 1))
+MK = fd(ns=NSSEL, how=HOW, **TREE)
+DOC = fd(nexus=B, mask=st.integers(0, 127), rot=st.integers(0, 6), t1=I, t2=I, rows=I, quote=B, translate=B)
+SRC = fd(kind=st.integers(0, 2), s=I, i=st.integers(0, 4), j=st.integers(0, 6), n=st.integers(1, 3))
+
+
+def decode_spec(ls, shape, il):
+    """labels + shape number -> nested spec [internal label or -1, child, ...] with int leaves."""
+    def rec(items, sh):
+        if len(items) == 1:
+            return items[0]
+        if len(items) == 2 or sh % 5 == 0:
+            ch = list(items)
+        elif sh % 5 == 1:
+            ch = [items[0], items[1], rec(items[2:], sh // 5)]
+        else:
+            cut = 1 + sh % (len(items) - 1)
+            ch = [rec(items[:cut], sh // 3), rec(items[cut:], sh // 7)]
+        return [-1] + ch
+    spec = rec(list(ls), shape)
+    if il >= 0:
+        tgt = spec
+        if shape % 2:
+            for c in spec[1:]:
+                if isinstance(c, list):
+                    tgt = c
+                    break
+        tgt[0] = il
+    return spec
+
+
+def expand_mk(mk):
+    if isinstance(mk, int):
+        n = mk
+        ls = [n % 7, (n // 7) % 7] + ([(n // 49) % 7] if n % 3 else []) + ([(n // 11) % 7] if n % 4 == 0 else [])
+        return {"spec": decode_spec(ls, n // 5, -1), "ns": n % 9, "how": "require"}
+    if "spec" in mk:
+        return mk
+    return {"spec": decode_spec(mk["ls"], mk["shape"], mk["il"]), "ns": mk["ns"], "how": "new" if mk["how"] == 3 else "require"}
+
+
+def expand_doc(doc):
+    if "labels" in doc:
+        return doc
+    labels = [(i + doc["rot"]) % NL for i in range(NL) if (doc["mask"] >> i) & 1]
+    for i in range(NL):
+        if len(labels) >= 3:
+            break
+        if (i + doc["rot"]) % NL not in labels:
+            labels.append((i + doc["rot"]) % NL)
+    trees = [{"n": 2 + doc["t1"] % 4, "perm": (doc["t1"] // 4) % 7, "shape": doc["t1"] // 28}]
+    if doc["t2"] % 3 == 0:
+        trees.append({"n": 2 + doc["t2"] % 4, "perm": (doc["t2"] // 4) % 7, "shape": doc["t2"] // 28})
+    r = doc["rows"]
+    rows = [r % 7, (r // 7) % 7, (r // 49) % 7][:r % 4]
+    return {"schema": "nexus" if doc["nexus"] else "newick", "labels": labels, "trees": trees, "rows": rows,
+            "quote": doc["quote"], "translate": doc["translate"]}
+
 
 RULES = {
     "mk_tree": MK,
-    "mk_tlist": fd(specs=st.lists(SPEC, min_size=0, max_size=3), ns=NSSEL, how=HOW),
-    "mk_matrix": fd(rows=st.lists(LBL, min_size=0, max_size=4, unique=True), ns=NSSEL, how=HOW),
+    "mk_tlist": fd(trees=st.lists(fd(**TREE), min_size=0, max_size=3), ns=NSSEL, how=HOW),
+    "mk_matrix": fd(rows=st.lists(LBL, min_size=0, max_size=4), ns=NSSEL, how=HOW),
     "tl_append": fd(tl=I, t=I, strat=st.sampled_from(["migrate", "migrate", "add"]), unify=st.sampled_from([True, True, False]),
                     insert=B, pos=st.integers(-3, 9), mk=MK, fresh=st.sampled_from([False, False, True])),
     "tl_extend": fd(tl=I, src=SRC, iadd=B),
     "tl_add": fd(tl=I, src=SRC, adopt=B),
-    "tl_setitem": fd(tl=I, i=I, t=I, mk=MK),
+    "tl_self_extend": fd(tl=I, iadd=B),
+    "tl_setitem": fd(tl=I, i=I, t=I),
     "tl_setslice": fd(tl=I, i=st.integers(0, 5), j=st.integers(0, 7), src=SRC),
-    "tl_read": fd(tl=I, doc=DOC),
+    "tl_read": fd(tl=I, doc=DOC, off=st.integers(0, 3)),
     "tl_new_tree": fd(tl=I, variant=st.sampled_from(["empty", "clone", "clone", "foreign_kw"]), t=I, ns=NSSEL),
     "tl_migrate": fd(tl=I, ns=NSSEL, unify=st.sampled_from([True, True, False]), route=st.sampled_from(["migrate", "assign"])),
     "tl_reconstruct": fd(tl=I, unify=B),
@@ -102,7 +148,7 @@ RULES = {
     "ds_add": fd(kind=st.sampled_from(["tlist", "matrix"]), k=I),
     "ds_read": fd(doc=DOC, nsmode=st.sampled_from(["none", "none", "pass", "wrong"]), ns=NSSEL),
     "ds_new_tlist": fd(variant=st.sampled_from(["empty", "clone", "list", "foreign_kw"]), s=I, n=st.integers(1, 2), ns=NSSEL,
-                       passns=B, mk=MK),
+                       passns=B),
     "ds_new_matrix": fd(variant=st.sampled_from(["empty", "clone", "foreign_kw"]), s=I, ns=NSSEL, passns=B),
     "ds_attach": fd(ns=NSSEL),
     "ds_detach": fd(),
@@ -111,7 +157,7 @@ RULES = {
     "cm_setitem": fd(m=I, variant=st.sampled_from(["taxon", "label", "index", "foreign", "absent"]), l=LBL, k=I),
     "cm_migrate": fd(m=I, ns=NSSEL, unify=st.sampled_from([True, True, False]), route=st.sampled_from(["migrate", "assign"])),
     "cm_reconstruct": fd(m=I, unify=B),
-    "cm_bulk": fd(m=I, o=I, rows=st.lists(LBL, min_size=1, max_size=3, unique=True), method=st.sampled_from(["add_sequences", "replace_sequences", "update_sequences",
+    "cm_bulk": fd(m=I, o=I, rows=st.lists(LBL, min_size=1, max_size=3), method=st.sampled_from(["add_sequences", "replace_sequences", "update_sequences",
                                                     "extend_sequences", "extend_sequences_new", "extend_matrix"])),
     "cm_clone": fd(m=I, ns=NSSEL),
     "tree_migrate": fd(t=I, ns=NSSEL, unify=st.sampled_from([True, True, False])),
@@ -119,7 +165,7 @@ RULES = {
 }
 
 INIT = fd(tl_cs=B, cm_cs=B, cm_shares=B, dtype=st.sampled_from(["dna", "standard"]), ds_attached=st.sampled_from([0, 1, 2]),
-          start=st.lists(MK, min_size=0, max_size=2), doc=DOC, rows=st.lists(LBL, min_size=0, max_size=3, unique=True),
+          start=st.lists(MK, min_size=0, max_size=2), rows=st.lists(LBL, min_size=0, max_size=3),
           loose=st.lists(MK, min_size=1, max_size=3))
 
 MAX_LOOSE, MAX_LISTS, MAX_MATS, MAX_LEN = 8, 7, 6, 8
@@ -213,6 +259,7 @@ class Interp(object):
         main = LRec(d.TreeList(taxon_namespace=ns), ns, [], 0)
         self.tlists.append(main)
         for mk in init["start"]:
+            mk = expand_mk(mk)
             tree = self.build_tree(mk["spec"], ns, mk["how"])
             main.tl.append(tree)
             main.members.append(TRec(tree, ns, self.slots(tree), 0))
@@ -573,6 +620,7 @@ class Interp(object):
 
     # -- pool ------------------------------------------------------------------------------
     def op_mk_tree(self, a):
+        a = expand_mk(a)
         ns = self.pick_ns(a["ns"])
         tree = self.build_tree(a["spec"], ns, a["how"])
         self.resnap(ns)
@@ -584,8 +632,9 @@ class Interp(object):
         ns = self.pick_ns(a["ns"])
         tl = self.d.TreeList(taxon_namespace=ns)
         rec = LRec(tl, ns, [], self.stepno)
-        for spec in a["specs"]:
-            tree = self.build_tree(spec, ns, a["how"])
+        how = "new" if a["how"] == 3 else "require"
+        for t in a["trees"]:
+            tree = self.build_tree(decode_spec(t["ls"], t["shape"], t["il"]), ns, how)
             tl.append(tree)
             rec.members.append(TRec(tree, ns, self.slots(tree), self.stepno))
         self.resnap(ns)
@@ -595,12 +644,12 @@ class Interp(object):
         if len(self.mats) >= MAX_MATS:
             return self.skip("full")
         ns = self.pick_ns(a["ns"])
-        self.mats.append(self.build_matrix(a["rows"], ns, a["how"]))
+        self.mats.append(self.build_matrix(a["rows"], ns, "new" if a["how"] == 3 else "require"))
 
     # -- sources for extend / + / slice assignment --------------------------------------------
     def make_source(self, L, src):
         """-> (python object to pass, kind, list of (source TRec, moved?))"""
-        kind = src["kind"]
+        kind = ["tlist", "slice", "list"][src["kind"]]
         if kind == "tlist":
             others = [x for x in self.tlists if x is not L]
             if not others:
@@ -618,7 +667,7 @@ class Interp(object):
             return sl, "tlist", [(m, False) for m in mem], L
         recs = []
         for q in range(src["n"]):
-            recs.append(self.take_loose(src["s"] + q, src["mk"]))
+            recs.append(self.take_loose(src["s"] + q, src["s"] + 13 * q))
         return [r.tree for r in recs], "list", [(r, True) for r in recs], None
 
     def import_members(self, L, kind, items, S, pre, new_trees, whole=False):
@@ -721,6 +770,23 @@ class Interp(object):
         L.members.extend(self.import_members(L, kind, items, S, pre, new_trees))
         L.modified = self.stepno
 
+    def op_tl_self_extend(self, a):
+        """tl.extend(tl) / tl += tl: like list.extend(self) the members present at the call are copied once."""
+        L = self.pick_list(a["tl"])
+        if not L.members or len(L.members) > 4:
+            return self.skip("empty_or_large")
+        pre = list(L.ns)
+        n0 = len(L.members)
+        fn = L.tl.__iadd__ if a["iadd"] else L.tl.extend
+        try:
+            budget.run(lambda: self.lib(fn, L.tl), 3000000)
+        except budget.HangDetected as e:
+            self.V(False, "self_extension_does_not_terminate",
+                   "TreeList.extend(self) still running after %d library events with %d trees in the list" % (e.count, len(L.tl)))
+        items = [(m, False) for m in L.members]
+        L.members.extend(self.import_members(L, "tlist", items, L, pre, list(L.tl)[n0:]))
+        L.modified = self.stepno
+
     def op_tl_add(self, a):
         L = self.pick_list(a["tl"])
         obj, kind, items, S = self.make_source(L, a["src"])
@@ -763,7 +829,7 @@ class Interp(object):
         i = a["i"] % len(L.members)
         if a["i"] % 3 == 0:
             i -= len(L.members)
-        T = self.take_loose(a["t"], a["mk"])
+        T = self.take_loose(a["t"], a["t"])
         pre = list(L.ns)
         self.note_import(T.ns, T.born, L.ns, L.modified, [x.label for x in T.slots if x is not None], pre)
         self.lib(L.tl.__setitem__, i, T.tree)
@@ -878,17 +944,26 @@ class Interp(object):
         L = self.pick_list(a["tl"])
         if len(L.members) >= MAX_LEN:
             return self.skip("full")
-        doc = a["doc"]
+        doc = expand_doc(a["doc"])
         labels = self.doc_labels(doc, keyfn(L.ns))
         want = self.doc_trees(doc, labels)
         text = self.trees_text(doc, want, doc["schema"])
         pre = list(L.ns)
         n0 = len(L.members)
-        n = self.lib(L.tl.read, data=text, **self.read_kwargs(L.ns, doc["schema"]))
+        kw = self.read_kwargs(L.ns, doc["schema"])
+        everything = [x for w in want for x in w]
+        if a["off"] >= 2:
+            kw["collection_offset"] = 0
+            if a["off"] == 3:
+                kw["tree_offset"] = len(want) - 1
+                want = want[len(want) - 1:]
+            self.ctx.cls("tl_read:with_offsets")
+        n = self.lib(L.tl.read, data=text, **kw)
         self.V(n == len(want), "read_tree_count", lambda: "read() returned %r for %d trees" % (n, len(want)))
         pairs, recs = self.check_read_trees(list(L.tl)[n0:], want, L.ns)
         self.ctx.cls("read:" + self.label_relation([x for w in want for x in w], L.ns) if pre else "read:into_empty")
-        self.check_mapping(pairs, L.ns, pre, "unify")
+        # documented: all taxa of the source are added, also those of trees skipped by tree_offset
+        self.check_mapping(pairs, L.ns, pre, "unify", universe=everything, allow_extra=(a["off"] == 3))
         L.members.extend(recs)
         L.modified = self.stepno
 
@@ -1033,7 +1108,7 @@ class Interp(object):
     def op_ta_read(self, a):
         if self.ta_len >= 12:
             return self.skip("full")
-        doc = a["doc"]
+        doc = expand_doc(a["doc"])
         ns = self.ta_ns
         labels = self.doc_labels(doc, keyfn(ns))
         want = self.doc_trees(doc, labels)
@@ -1091,7 +1166,7 @@ class Interp(object):
     def op_ds_read(self, a):
         if not self.ds_room():
             return self.skip("full")
-        doc, ds = a["doc"], self.ds
+        doc, ds = expand_doc(a["doc"]), self.ds
         mode = a["nsmode"]
         given = None
         if mode == "wrong":
@@ -1196,7 +1271,7 @@ class Interp(object):
             items = [(m, False) for m in S.members]
             rec.members = self.import_members(rec, "tlist", items, S, pre, list(tl), whole=True)
         elif v == "list":
-            recs = [self.take_loose(a["s"] + q, a["mk"]) for q in range(a["n"])]
+            recs = [self.take_loose(a["s"] + q, a["s"] + 13 * q) for q in range(a["n"])]
             known = set(self.nss)
             pre = list(target) if target is not None else []
             tl = self.lib(ds.new_tree_list, [r.tree for r in recs], **kw)
@@ -1496,11 +1571,12 @@ class Interp(object):
         M = self.pick_mat(a["m"])
         others = [x for x in self.mats if x is not M]
         same = [x for x in others if x.ns is M.ns]
-        if a["o"] % 3 and not same and len(self.mats) < MAX_MATS + 2:
+        want_same = a["o"] % 3 != 1
+        if want_same and not same and len(self.mats) < MAX_MATS + 2:
             O = self.build_matrix(a["rows"], M.ns, "require")
             self.mats.append(O)
             same = [O]
-        if same and a["o"] % 3:
+        if same and want_same:
             O = same[a["o"] % len(same)]
         elif others:
             O = others[a["o"] % len(others)]
